@@ -450,9 +450,9 @@ func TestC29(t *testing.T) {
 	c.Assume("the contract is represented by the mock engine's sudo callback; the store object handed to it is the one the real RecoverClient path builds")
 	c.Assume("get/set/delete of a key that is exactly a prefix (empty remainder) and inverted ranges are outside the statement: the store layer may refuse them; they are only required not to touch the substitute")
 	for k, v := range map[string]int64{
-		"recoveries": 65, "recoveries_committed": 45, "recoveries_rolled_back": 10, "ops": 4000, "get_hit_subject": 120, "get_hit_substitute": 90, "get_unprefixed_empty": 130,
-		"set_subject": 370, "set_ignored": 400, "delete_subject_hit": 80, "delete_ignored": 400, "iter_nonempty": 350, "iter_inconsistent_empty": 450, "iter_consistent_empty": 40,
-		"substitute_unchanged_checks": 65, "edge_ops": 430,
+		"recoveries": 160, "recoveries_committed": 110, "recoveries_rolled_back": 25, "ops": 10000, "get_hit_subject": 300, "get_hit_substitute": 220, "get_unprefixed_empty": 320,
+		"set_subject": 900, "set_ignored": 1000, "delete_subject_hit": 200, "delete_ignored": 1000, "iter_nonempty": 850, "iter_inconsistent_empty": 1100, "iter_consistent_empty": 100,
+		"substitute_unchanged_checks": 160, "edge_ops": 1000,
 	} {
 		c.Floor(k, v)
 	}
@@ -473,7 +473,7 @@ func TestC29(t *testing.T) {
 		return
 	}
 
-	n := c.N(80, 160)
+	n := c.N(200, 300)
 	for i := 0; i < n; i++ {
 		if c.SkipCase(i) {
 			continue
